@@ -55,8 +55,8 @@ PROPS = {
               explanation="Mixed: the ownership guards (who may take the description branch, lock discipline of threadsafe_make_dag, frames of the run path) are proved; LazyExecNode.__call__ and real interleavings are covered by the bounded thread stand-in only."),
     "C17": P_(["scheduler", "values", "dagproto"], ["async", "programs_flat"], dict(SW)),
     "C18": P_(["dagproto", "dagadmin"], ["cache"]),
-    "C19": P_(["digraph"], ["compose"], claim="exploration",
-              explanation="compose() is outside the verifier's subset (deepcopy of frozen dataclasses, in-place rewiring of shared lists); decided by the bounded stand-in only; the single proved obligation concerns ancestors_of_iter."),
+    "C19": P_(["digraph", "compose", "graphbuild"], ["compose"], claim="other",
+              explanation="Mixed: compose() and its recursive closure _add_missing_deps are proved against contracts taken from the property (what is copied = what the outputs need, stopping at the inputs; every positional / keyword / activation reference to an input is rewritten to the new argument holder with its key path and no other reference changes; every reference of a copied node is a key of the new table; inputs / outputs / results handed to the new DAG; the original untouched). Assumed there: the holder ids made by make_axn_id are fresh (string-level), the input aliases are distinct nodes. The VALUE computed by the composed DAG then follows from C01's contracts; it is compared with 'substitute the inputs in the original description' only by the bounded compose stand-in. One known finding (KF-C19-overlap)."),
     "C20": P_(["retwrap", "threads", "subdag", "nodebuild"], ["programs", "reference_matrix"], claim="other",
               explanation="Mixed: the description branch of DAG.__call__ (stubs for supplied arguments, copy of constants / defaults, re-creation of every inner node with prefixed references and key paths, activation rules, return shape, prefix stack), construct_subdag_arg_uxns, LazyExecNode.__call__, the make_* helpers and wrap_in_uxns are proved against contracts taken from the property; ids are an uninterpreted sort, so that prefixed ids / holder ids are fresh and never capture outer ids is ASSUMED there (string-level) and exercised only by the bounded program-level stand-ins (KF-C20-twice is the case where it is false)."),
 }
